@@ -142,6 +142,12 @@ def wt(k):
     return I32 if k in "iu" else F32
 
 
+def shims_w():
+    """proxy-friendly isinstance etc. inside the generator module"""
+    from .vm_c import shims
+    return shims()
+
+
 def new_gen():
     g = GEN()
     ctx = g.GenerateWasmVisitor.Context()
@@ -402,6 +408,50 @@ def c06_sem(R):
                 """, pt=NSLT[valk or "i"], declared=declared, hasval=valk is not None)
 
         verify(R, "C06.sem.ReturnInstruction", GW + "::GenerateWasmVisitor.v_ReturnInstruction", run, replay, label=f"declared-{declared},value-{ {'i': 'int', 'f': 'float', None: 'none'}[valk] }")
+    # integer constants of ANY magnitude: refused, or an i32.const whose immediate is a valid signed 32-bit immediate with the bit pattern of the
+    # constant (an int constant outside the int range, or a uint constant >= 2^32, has no 32-bit representation: it must be refused)
+    gc0 = resolve(GW + "::_GenerateConstant")
+    for k in ("i", "u"):
+        def run_const(ctx, k=k):
+            c = ctx.int("c")
+            ctx.assume(c.t >= -(2 ** 40))
+            ctx.assume(c.t <= 2 ** 40)
+            if k == "u":
+                ctx.assume(c.t >= 0)
+            try:
+                from pyvc.sym import FormatTrace
+                with shims_w(), FormatTrace():          # (the refusal message formats the constant)
+                    ins = gc0(ir.ConstantValue(T(k), c))
+            except Exception as e:
+                representable = irsem.in_i32(c.t) if k == "i" else z3.And(c.t >= 0, c.t < 2 ** 32)
+                return [("refused-only-if-unrepresentable", z3.Not(representable), f"a representable {T(k)} constant was refused: {type(e).__name__}: {e}")]
+            opn, args = decode(ins)
+            imm = term(args[0]) if args else None
+            if opn != "i32.const" or imm is None:
+                return [("i32.const", z3.BoolVal(False), f"emitted {opn} {args}")]
+            return [("immediate-in-range", z3.And(imm >= -(2 ** 31), imm < 2 ** 31), "i32.const immediate outside the signed 32-bit range (the module does not validate)"),
+                    ("same-bit-pattern", (imm - c.t) % (2 ** 32) == 0)]
+
+        def replay_const(model, clause, k=k):
+            c = int(model.get("c", 3000000000))
+            return script("""
+                import io, contextlib
+                from nsl import Compiler
+                import wasmtime
+                src = 'export function f(%s a) -> %s { return (a + %d); }' % ({{t}}, {{t}}, {{c}})
+                try:
+                    with contextlib.redirect_stdout(io.StringIO()):
+                        r = Compiler.Compiler().Compile(src, {'wasm': True, 'optimize': True})
+                    out = io.BytesIO(); r.WasmModule.WriteTo(out)
+                except BaseException as e:
+                    print(src, 'refused:', type(e).__name__, e); raise SystemExit
+                try:
+                    wasmtime.Module.validate(wasmtime.Engine(), out.getvalue()); print(src, 'valid')
+                except Exception as e:
+                    print(src); print('wasmtime rejects the emitted module:', str(e)[:200]); print('REPLAY-CONFIRMED')
+                """, t="int" if k == "i" else "uint", c=c)
+
+        verify(R, "C07.const-range", GW + "::_GenerateConstant", run_const, replay_const, label="int" if k == "i" else "uint")
     # constants
     gc = resolve(GW + "::_GenerateConstant")
     c = ir.ConstantValue(ir.IntegerType(), -65)
@@ -729,3 +779,54 @@ def c06_pre(R):
                         """, t0=NSLT[k0], t1=NSLT[k1], rt="int" if (iscmp or "f" not in (k0, k1)) else "float", op=sp)
                 R.check(oid, "nsl.passes.AddImplicitCasts::AddImplicitCastVisitor.v_BinaryExpression", bins and bad is None,
                         detail=f"{src}: the binary instruction has operands of types {bad}" if bad else f"{src}: no binary instruction emitted", replay=rp)
+
+
+
+@family("C07.function-end", props=["C07", "C06"], functions=[GW + "::GenerateWasmVisitor.v_Function", GW + "::GenerateWasmVisitor.v_ReturnInstruction"],
+        assumptions=["function shapes enumerated: result type {int, float, void} x body {empty, expression statement only, expression statement then return, return only}; validity is decided by wasmsem on the emitted body (stack at the end of the body must equal the declared results) and, where importable, by wasmtime"])
+def c07_function_end(R):
+    """A function body that can reach its end must leave exactly the declared results on the stack: a function with a result that falls off its
+    end (no return) is refused, never emitted."""
+    import io, contextlib
+    from nsl import Compiler
+    try:
+        import wasmtime
+    except Exception:
+        wasmtime = None
+    bodies = {"empty": "", "expr-only": "(a + a);", "expr-then-return": "(a + a); return {r};", "return-only": "return {r};"}
+    for rt in ("int", "float", "void"):
+        for bname, body in bodies.items():
+            pt = "float" if rt == "float" else "int"
+            b = body.replace("return {r};", "return;" if rt == "void" else "return a;")
+            src = f"export function f({pt} a) -> {rt} {{ {b} }}"
+            try:
+                with contextlib.redirect_stdout(io.StringIO()):
+                    r = Compiler.Compiler().Compile(src, {"wasm": True})
+                out = io.BytesIO()
+                r.WasmModule.WriteTo(out)
+                data = out.getvalue()
+            except BaseException as e:
+                must = rt == "void" or "return" in b
+                R.check(f"C07.function-end[{rt},{bname}]", GW + "::GenerateWasmVisitor.v_Function", not must or bname == "expr-then-return" and False or not must,
+                        detail=f"refused ({type(e).__name__}: {str(e)[:80]}): {src}" + ("  -- but this function is inside the backend's subset" if must else ""))
+                continue
+            ok, det = True, "emitted"
+            if wasmtime is not None:
+                try:
+                    wasmtime.Module.validate(wasmtime.Engine(), data)
+                except Exception as e:
+                    ok, det = False, f"wasmtime rejects the emitted module: {str(e)[:160]}"
+            R.check(f"C07.function-end[{rt},{bname}]", GW + "::GenerateWasmVisitor.v_Function", ok, detail=f"{det}: {src}",
+                    replay=script("""
+                        import io, contextlib
+                        from nsl import Compiler
+                        import wasmtime
+                        src = {{src}}
+                        with contextlib.redirect_stdout(io.StringIO()):
+                            r = Compiler.Compiler().Compile(src, {'wasm': True})
+                        out = io.BytesIO(); r.WasmModule.WriteTo(out)
+                        try:
+                            wasmtime.Module.validate(wasmtime.Engine(), out.getvalue()); print(src, 'valid')
+                        except Exception as e:
+                            print(src); print('wasmtime rejects the emitted module:', str(e)[:200]); print('REPLAY-CONFIRMED')
+                        """, src=src))
